@@ -229,11 +229,15 @@ func execC12(c *Case) {
 			refU := strings.ToUpper(sv.Get("ref"))
 			h := L / 2
 			for k := 0; k < 12; k++ {
-				dn := fmt.Sprintf("split%02d", k)
+				dn, dn2 := fmt.Sprintf("split%02d", k), fmt.Sprintf("split%02d", k)
+				if k%2 == 1 && kind == "topa-dir" {
+					// two different names that map to one file name ('/' is written as '_')
+					dn, dn2 = fmt.Sprintf("sp%02d/x", k), fmt.Sprintf("sp%02d_x", k)
+				}
 				all = append(all,
 					samRec{name: dn, flag: 0, pos: 1, cigar: fmt.Sprintf("%dM", h), seq: refU[:h]},
 					samRec{name: fmt.Sprintf("between%02d", k), flag: 0, pos: 1, cigar: fmt.Sprintf("%dM", L), seq: refU},
-					samRec{name: dn, flag: 2048, pos: h + 1, cigar: fmt.Sprintf("%dM", L-h), seq: strings.Repeat("T", L-h)})
+					samRec{name: dn2, flag: 2048, pos: h + 1, cigar: fmt.Sprintf("%dM", L-h), seq: strings.Repeat("T", L-h)})
 			}
 			c.Tag("query-records-not-contiguous")
 		}
